@@ -103,7 +103,7 @@ func (a ConstInt) GetN() int {
 /* json
  * -------------------------------------------------------------------------- */
 func (obj ConstInt) MarshalJSON() ([]byte, error) {
-  return json.Marshal(obj)
+  return json.Marshal(int(obj))
 }
 /* math
  * -------------------------------------------------------------------------- */
